@@ -11,7 +11,9 @@
    scripted work function incl. nested controller calls (also run_maintenance,
    controller.advance of other operations, pop_next_waiter) and NESTED
    execute_operation calls with scripts of their own, to any depth ([WExec]),
-   work raising, validation absent/true/false/raising), the request list
+   work raising, validation absent/true/false/raising; [sc_val]: WHICH exception
+   object a raising callback raises / which falsy object a rejecting validator
+   returns / what the work function returns), the request list
    [reqs] (repeats, unregistered ids, resources held by others), priorities and
    the watchdog configuration [w] are universally quantified everywhere.
    The operation id [o] of execute_operation is any id that is not live: a
@@ -235,3 +237,18 @@ Theorem c14_terminated_never_works :
     (r_success res = true -> exists sw, In (EvWork sw) (r_log res)).
 Proof. exact terminated_before_work_proof. Qed.
 Print Assumptions c14_terminated_never_works.
+
+(* "Work function raising, validation returning false or raising": whatever is raised
+   or returned.  Two scripts that differ only in the objects their callbacks use (the
+   exception raised by a checkpoint / the work function / the validator - with a
+   message, message-less, falsy, a KeyError(), one that cannot be rendered, one of the system's own error classes
+   ... -, the falsy verdict, the work result), in the call itself or in any nested
+   call, have the same outcome: final state, success flag, phase reached and callback
+   log.  Hence every theorem above holds for each of them alike; no exit path depends
+   on what the exception looks like. *)
+Theorem c14_callback_values_irrelevant :
+  forall chk fl w sc sc' encl s o p reqs,
+    with_val 0 sc = with_val 0 sc' ->
+    exec_in chk fl w sc encl s o p reqs = exec_in chk fl w sc' encl s o p reqs.
+Proof. exact values_irrelevant_proof. Qed.
+Print Assumptions c14_callback_values_irrelevant.
